@@ -365,7 +365,8 @@ If `remove_empty` keeps the root (`t1`; otherwise the load fails), then
   (c) `propagate_total_memory` on `t2` leaves the exact NUMA sums (when they fit in 64 bits) and `hwloc_set_group_depth` numbers the Group
       levels of `t2` consecutively.
 NOT covered by this theorem (judged by the oracle on every loaded topology): the set clauses THROUGH level merging (they are stated for
-`t1`; they carry over to `t2` whenever merging changes nothing, `keepStructure filters t1 = t1`), cpuset-is-disjoint-union-of-children,
+`t1`; they carry over to `t2` whenever merging changes nothing, `keepStructure filters t1 = t1`; the part that does survive any merge —
+SetsOK and the dump clause set-in-complete — is C01_pipeline_sets_through_merging), cpuset-is-disjoint-union-of-children,
 children-counts, and nodeset-decomposition / total-memory in their dump form (they go through `mkAux`), pu-cpuset,
 numa-nodeset, the uniqueness clauses, pu-level-deepest, numa-exists, type-depth-inverse, normal-level-types, levels-cover-objects,
 not-filtered-out, cache-attrs, siblings-ordered, symmetric_subtree. -/
